@@ -84,6 +84,11 @@ def run(ck):
         else:
             # a path that does not go through the aggregator: must be the empty-record guard
             facts = pa.facts
+            if v == C("") and any(e.kind == "loop-exit" and e.extra.get("iterations") == 0 for e in pa.events):
+                # '' is what an accumulator holds after a loop that did not run: whether the loop over the aggregator's
+                # output can run zero times is not something this rule can see
+                raise AnalysisError(f"{where(cigar, pa.node)}: cigarString builds its value in a loop; the path on which the "
+                                    f"loop does not run cannot be judged")
             if v == C(""):
                 ok = facts.get(aligned) is False and len(pa.state.assumptions) == 1
                 if ok:
